@@ -312,7 +312,9 @@ PRIM_METHODS = {"upper", "lower", "startswith", "endswith", "strip", "rstrip", "
                 "splitlines", "title", "casefold", "index", "translate", "hex", "isascii", "zfill", "items", "keys",
                 "values", "get", "copy", "append", "pop", "popleft", "appendleft", "extend", "insert", "clear",
                 "update", "setdefault", "add", "discard", "remove", "popitem", "move_to_end", "getvalue", "write",
-                "read", "seek", "tell", "close", "fileno", "group", "groups", "groupdict", "is_integer", "bit_length"}
+                "read", "seek", "tell", "close", "fileno", "group", "groups", "groupdict", "is_integer", "bit_length",
+                "rfind", "isascii", "isalpha", "isalnum", "isspace", "islower", "isupper", "capitalize", "swapcase", "center", "ljust", "rjust",
+                "expandtabs", "removeprefix", "removesuffix", "span", "start", "end"}
 
 
 def field_hint(I, hint, name):
@@ -583,19 +585,21 @@ def getslice(I, st, c, lo, hi, step, fr, k):
         t = c.t
         if concrete_key(I, st, step) not in (None, 1):
             raise Unsupported("slice step")
-        isstr = z3.simplify(is_str(t)); isbyt = z3.simplify(is_byt(t))
-        if z3.is_true(isstr) or z3.is_true(isbyt):
-            s = get_s(t) if z3.is_true(isstr) else get_y(t)
-            n = z3.Length(s)
+        def on_text(s2):
+            sv_ = z3.If(is_str(t), get_s(t), get_y(t))
+            n = z3.Length(sv_)
             def bound(x, default):
                 if z3.is_true(z3.simplify(is_none(x.t))):
                     return default
                 i = as_int(x.t)
                 i = z3.If(i < 0, z3.If(i + n < 0, 0, i + n), z3.If(i > n, n, i))
-                return i
-            l = bound(as_sym(I, st, lo), z3.IntVal(0)); h = bound(as_sym(I, st, hi), n)
-            sub = z3.SubString(s, l, z3.If(h > l, h - l, 0))
-            return k(st, Sym(mk_str(sub) if z3.is_true(isstr) else mk_byt(sub)))
+                return z3.If(is_none(x.t), default, i)
+            l = bound(as_sym(I, s2, lo), z3.IntVal(0)); h = bound(as_sym(I, s2, hi), n)
+            sub = z3.SubString(sv_, l, z3.If(h > l, h - l, 0))
+            return k(s2, Sym(z3.If(is_str(t), mk_str(sub), mk_byt(sub))))
+        def on_seq(s2):
+            return unsupported_path(I, s2, f"slice of {c!r}")
+        return I.branch(st, z3.Or(is_str(t), is_byt(t)), on_text, on_seq)
     raise Unsupported(f"slice of {c!r}")
 
 
@@ -1080,6 +1084,23 @@ def b_namedtuple_new(I, st, args, kwargs, fr, k):
     return construct(I, st, cls.q, list(args[1:]), kw, fr, k)
 
 
+def b_map(I, st, args, kwargs, fr, k):
+    f = args[0]
+    items = concrete_items(I, st, args[1])
+    if items is None or len(args) != 2:
+        raise Unsupported("map over a symbolic iterable")
+    def go(s2, i, acc):
+        if i == len(items):
+            return k(s2, Tup(acc))
+        return I.call(s2, f, [items[i]], {}, fr, lambda s3, r: go(s3, i + 1, acc + [r]))
+    return go(st, 0, [])
+
+
+def b_repr(I, st, args, kwargs, fr, k):
+    note(I, "repr(x) is an opaque string")
+    return k(st, Sym(mk_str(z3.String(I.w.fresh("repr")))))
+
+
 def b_sleep(I, st, args, kwargs, fr, k):
     st.events.append(("Sleep", {"s": args[0]}))
     st.version += 1
@@ -1203,7 +1224,7 @@ BUILTINS = {
     "min": b_minmax("min"), "max": b_minmax("max"), "len": b_len, "reversed": b_reversed,
     "time.monotonic": b_monotonic, "time.sleep": b_sleep, "random.random": b_random,
     "socket.getdefaulttimeout": b_getdefaulttimeout, "_socket.getdefaulttimeout": b_getdefaulttimeout,
-    "$namedtuple_new": b_namedtuple_new,
+    "$namedtuple_new": b_namedtuple_new, "map": b_map, "repr": b_repr,
     "typing.cast": b_cast, "any": b_any_all(True), "all": b_any_all(False), "getattr": b_getattr,
 }
 for _n in ("debug", "info", "warning", "error", "exception", "log"):
